@@ -649,3 +649,85 @@ func ptOK(p *PTokParam, i int) bool {
 func ptWithin(p *PTokParam, hi int) bool {
 	return within(p.All, hi) && within(p.Name, hi) && within(p.Val, hi)
 }
+
+// separator and terminator selected by the flags (as documented for ParseTokenParam)
+func ptSep(flags POptFlags) byte {
+	if flags&(POptParamAmpSepF|POptTokURIHdrF) != 0 {
+		return '&'
+	}
+	return ';'
+}
+
+func ptTerm(flags POptFlags) byte {
+	if flags&(POptTokQmTermF|POptTokURIParamF) != 0 {
+		return '?'
+	}
+	if flags&POptTokCommaTermF != 0 {
+		return ','
+	}
+	return 0
+}
+
+// tokChars: buf[a:b) consists of bytes allowed in a parameter name or token value
+func tokChars(buf []byte, a, b int, flags POptFlags) bool {
+	return forall(a, b, func(k int) bool { return tokAllowedChar(buf[k], flags) })
+}
+
+// noSepTerm: no separator and no terminator in buf[a:b)
+func noSepTerm(buf []byte, a, b int, flags POptFlags) bool {
+	return forall(a, b, func(k int) bool {
+		return buf[k] != ptSep(flags) && (ptTerm(flags) == 0 || buf[k] != ptTerm(flags))
+	})
+}
+
+func lwsOnly(buf []byte, a, b int) bool {
+	return forall(a, b, func(k int) bool { return isLWSc(buf[k]) })
+}
+
+func lwsOrEq(buf []byte, a, b int) bool {
+	return forall(a, b, func(k int) bool { return isLWSc(buf[k]) || buf[k] == '=' })
+}
+
+// ptNameDone: the name is complete: non-empty, made of allowed bytes (so free of white space), no separator
+// or terminator after its first byte, and the whole-parameter field starts with it
+func ptNameDone(buf []byte, p *PTokParam, flags POptFlags) bool {
+	return p.Name.Len > 0 && p.All.Offs == p.Name.Offs && fend(p.Name) <= fend(p.All) &&
+		tokChars(buf, int(p.Name.Offs), fend(p.Name), flags) && noSepTerm(buf, int(p.Name.Offs)+1, fend(p.Name), flags)
+}
+
+// ptValDone: the value is absent/empty, a token, or a complete quoted string; it lies after the name and
+// inside the whole-parameter field, which ends with it
+func ptValDone(buf []byte, p *PTokParam, flags POptFlags) bool {
+	if p.Val.Offs == 0 {
+		return p.Val.Len == 0
+	}
+	if !(fend(p.Name) < int(p.Val.Offs) && lwsOrEq(buf, fend(p.Name), int(p.Val.Offs))) {
+		return false
+	}
+	if p.Val.Len == 0 {
+		return true
+	}
+	if fend(p.Val) != fend(p.All) {
+		return false
+	}
+	if buf[p.Val.Offs] == '"' {
+		return p.Val.Len >= 2 && buf[fend(p.Val)-1] == '"'
+	}
+	return tokChars(buf, int(p.Val.Offs), fend(p.Val), flags) && noSepTerm(buf, int(p.Val.Offs), fend(p.Val), flags)
+}
+
+// ptInv: ParseTokenParam's loop invariant, by state
+func ptInv(buf []byte, p *PTokParam, i int, flags POptFlags) bool {
+	return (p.state != vpName || (p.All.Offs == p.Name.Offs && p.Name.Len == 0 && p.All.Len == 0 && int(p.Name.Offs) < i && p.Val.Offs == 0 && p.Val.Len == 0 &&
+		tokChars(buf, int(p.Name.Offs), i, flags) && noSepTerm(buf, int(p.Name.Offs)+1, i, flags))) &&
+		((p.state != vpFEq && p.state != vpFVal && p.state != vpVal && p.state != vpQuotedVal && p.state != vpFSep && p.state != vpFNxt) ||
+			ptNameDone(buf, p, flags)) &&
+		(p.state != vpFEq || (p.Val.Offs == 0 && p.Val.Len == 0 && fend(p.All) == fend(p.Name) && fend(p.Name) < i && lwsOnly(buf, fend(p.Name), i))) &&
+		(p.state != vpFVal || (p.Val.Offs == 0 && p.Val.Len == 0 && fend(p.Name) < i && lwsOrEq(buf, fend(p.Name), i))) &&
+		(p.state != vpVal || (fend(p.Name) < int(p.Val.Offs) && lwsOrEq(buf, fend(p.Name), int(p.Val.Offs)) && p.Val.Len == 0 && int(p.Val.Offs) < i &&
+			buf[p.Val.Offs] != '"' && tokChars(buf, int(p.Val.Offs), i, flags) && noSepTerm(buf, int(p.Val.Offs), i, flags))) &&
+		(p.state != vpQuotedVal || (fend(p.Name) < int(p.Val.Offs) && lwsOrEq(buf, fend(p.Name), int(p.Val.Offs)) && p.Val.Len == 0 && int(p.Val.Offs) < i &&
+			buf[p.Val.Offs] == '"')) &&
+		((p.state != vpFSep && p.state != vpFNxt) || ptValDone(buf, p, flags)) &&
+		(p.state != vpFSep || (p.Val.Len > 0 && fend(p.All) <= i && lwsOnly(buf, fend(p.All), i)))
+}
